@@ -148,6 +148,23 @@ theorem C02_report_without_rejected (canon : Key → Key) (contents : Item → L
   rw [e1, e2, List.append_nil] at hf
   exact hf
 
+/-- The start line of a function: when all the inputs that name function `n` of file `k` agree on
+its start line, the report carries that start line – for every thread count, schedule and input
+order (the only schedule-dependent datum is the start line of a function about which the inputs
+themselves disagree, C01). -/
+theorem C02_report_start_when_inputs_agree (canon : Key → Key)
+    (contents : Item → List (Key × Cov)) (hwf : ∀ i, ∀ kc ∈ contents i, kc.2.WF) (n : Nat)
+    (hn : 1 ≤ n) (rx : Bool) (items : List Item) (tr : List Step) (s : State)
+    (h : Run (fun _ => Fate.ok) (init n rx items) tr s) (hd : s.mainPc = .done 0) (k : Key)
+    (fn : Name) (st : Nat)
+    (agree : ∀ i ∈ items, ∀ kc ∈ contents i, canon kc.1 = k →
+      ∀ g, get? kc.2.functions fn = some g → g.start = st)
+    (c : Cov) (hc : get? (reportOf canon contents s.merged) k = some c) (f : Fn)
+    (hf : get? c.functions fn = some f) : f.start = st := by
+  have hp := C02_exactly_once_no_faults n hn rx items tr s h hd
+  exact report_start_common canon contents hwf s.merged k fn st
+    (fun i hi => agree i (hp.subset hi)) c hc f hf
+
 /-- non-vacuity: two artifacts that both describe file 1, merged in either order, give the same
 line count 7 (and `WF` holds for them) -/
 example :
